@@ -1531,9 +1531,21 @@ func ruleC12DecidedByEqual(c *Ctx) {
 				return
 			}
 			if dependsOn(ifi.Cond, []ssa.Value{call}, 6) || condViaFlag(ifi.Cond, call) {
-				for _, s := range ifi.Block().Succs {
+				for si, s := range ifi.Block().Succs {
 					if blockReturnsError(s) {
 						okDep = true
+					}
+					// in a helper that decides the keyword alone: a match returns nil at once, and what is left when
+					// the list is exhausted is the failure
+					if ifi.Parent() != m.E && returnsNilError(s) {
+						other := ifi.Block().Succs[1-si]
+						for _, b := range ifi.Parent().Blocks {
+							if (b == other || core.Reachable(other, b, nil)) && blockReturnsErrorDeepLocal(b) {
+								if _, isRet := b.Instrs[len(b.Instrs)-1].(*ssa.Return); isRet {
+									okDep = true
+								}
+							}
+						}
 					}
 				}
 			}
